@@ -866,7 +866,12 @@ pub fn check(env: &Env, case: &Case, st: &mut Stats) -> CaseResult {
                                 }
                             }
                             Err((sig, d)) => {
-                                return fail(env, st, &format!("list-{}", sig), &text, format!("entry {} of `{}`: {}", i, shown, d))
+                                // recorded finding: an SI prefix put in front of a list member that was
+                                // itself written with a prefix or a plural `s` (`ms`, `km`, `kgs`): the
+                                // repository's own test suite pins such an output (`9.46 kiloteram`)
+                                let plain = env.ctx.registry.units.contains_key(name.as_str()) || env.ctx.registry.base_units.contains(name.as_str());
+                                let sig = if plain { format!("list-{}", sig) } else { "list-entry-si-prefix-on-prefixed-or-plural-name".to_string() };
+                                return fail(env, st, &sig, &text, format!("entry {} of `{}`: {}", i, shown, d));
                             }
                         }
                     }
